@@ -267,6 +267,8 @@ class ScriptedProtocol(IProtocol):
         nid = self.provider.get_id()
         now = self.provider.current_time()
         CTX.trace.append("cb %d %s %s" % (nid, fhex(now), desc))
+        if CTX.scenario.get("poll_inside") and getattr(CTX, "sim", None) is not None and kind != "finish":
+            CTX.sim.is_simulation_done()       # asking whether the run is over does not end it
         if CTX.scenario.get("interloper"):
             CTX.fired = getattr(CTX, "fired", 0) + 1
             if CTX.fired in (2, 5):
